@@ -41,3 +41,11 @@ Theorem C13_zero_drift_unchanged : forall (T : nat) (mask : list bool) (disp : l
   correct_all mask disp = map (map (fun x : Z => nsel mask * x)) disp.
 Proof. exact zero_drift_unchanged. Qed.
 Print Assumptions C13_zero_drift_unchanged.
+
+(* exactly the reference-frame motion is removed: the same vector is subtracted from every atom in every frame, so the motion of any two
+   atoms relative to each other is unchanged (numerators over n * D on the left, over D on the right) *)
+Theorem C13_relative_motion_preserved : forall (n : Z) (dn d1 d2 : list Z) (t : nat),
+  (t < length d1)%nat -> (t < length d2)%nat -> (t < length dn)%nat ->
+  nth t (corrected_n n dn d1) 0 - nth t (corrected_n n dn d2) 0 = n * (nth t d1 0 - nth t d2 0).
+Proof. exact relative_motion_preserved. Qed.
+Print Assumptions C13_relative_motion_preserved.
